@@ -774,6 +774,13 @@ static sexp analyze_macro_once (sexp ctx, sexp x, sexp op, int depth) {
   tmp = sexp_cons(ctx, sexp_macro_env(op), SEXP_NULL);
   tmp = sexp_cons(ctx, sexp_context_env(ctx), tmp);
   tmp = sexp_cons(ctx, x, tmp);
+#if SEXP_USE_GREEN_THREADS
+  /* the parameter list of the child context, built before the (unrooted) */
+  /* child exists: the caller's list with the error handler shadowed */
+  handler = sexp_cons(ctx, sexp_global(ctx, SEXP_G_ERR_HANDLER), SEXP_FALSE);
+  if (!sexp_exceptionp(handler))
+    handler = sexp_cons(ctx, handler, sexp_context_params(ctx));
+#endif
   res = sexp_exceptionp(tmp) ? tmp : sexp_make_child_context(ctx, sexp_context_lambda(ctx));
   if (!sexp_exceptionp(res) && !sexp_exceptionp(sexp_context_exception(ctx))) {
     /* The transformer runs in a nested VM.  An error it raises must come */
@@ -784,10 +791,7 @@ static sexp analyze_macro_once (sexp ctx, sexp x, sexp op, int depth) {
     err_cell = sexp_global(ctx, SEXP_G_ERR_HANDLER);
 #if SEXP_USE_GREEN_THREADS
     /* the handler is a thread parameter: shadow it in the child context */
-    handler = sexp_cons(ctx, err_cell, SEXP_FALSE);
-    if (!sexp_exceptionp(handler))
-      handler = sexp_cons(ctx, handler, sexp_context_params(res));
-    if (!sexp_exceptionp(handler))
+    if (sexp_pairp(handler))
       sexp_context_params(res) = handler;
 #endif
     err_cell = sexp_opcodep(err_cell) ? sexp_opcode_data(err_cell) : SEXP_FALSE;
